@@ -570,6 +570,31 @@ package actions
 //@   ghostset locked_in_tx := tx_epoch()
 //@   modifies S:dbfailed, S:locked_in_tx
 
+// ---- C11, the part of it that is one function: the byte budget of a fetch. applyResults accepts a candidate only
+// while the running total stays within MaxBytes; the one exception is the first candidate of a fetch that is not
+// "strict" (the streamer asks for strict mode whenever anything is outstanding), which is accepted whatever its size
+// and is then the only message of the fetch. fetched(j) is the prefix sum of the accepted payload sizes, kept by the
+// loop's ghost assignment; the postcondition pins it down by its recurrence. The preconditions of the calls made in
+// the body are obligations of the primary unit above.
+//@ func (*GetSubscriptionMessages).applyResults~budget(a, ctx, tx, sub, deliveries) (err)
+//@   property C11
+//@   uses tables notifyspec backoff txspec pullspec
+//@   option callee-preconditions assumed
+//@   requires a != nil && tx != nil && sub != nil
+//@   requires forall k int :: {deliveries[k]} 0 <= k && k < len(deliveries) ==> deliveries[k] != nil && deliveries[k].Edges.Message != nil
+//@   ensures byte_budget: err == nil ==> a.results != nil && fetched(0) == 0 &&
+//@             (forall j int :: {fetched(j)} 0 <= j && j < len(a.results.Deliveries) ==> fetched(j + 1) == fetched(j) + len(a.results.Deliveries[j].Payload)) &&
+//@             (len(a.results.Deliveries) == 0 || fetched(len(a.results.Deliveries)) <= a.params.MaxBytes || (len(a.results.Deliveries) == 1 && !a.params.MaxBytesStrict))
+//@   modifies *
+//@   loop 1
+//@     ghostset fetched(len(results.Deliveries)) := bytes
+//@     invariant a != nil && sub != nil && results != nil && !allocated(results) && idx < len(deliveries) && 0 <= len(results.Deliveries) && len(results.Deliveries) <= idx + 1
+//@     invariant fresh_only("F:actions.GetSubscriptionMessages:actionBase.params*")
+//@     invariant elems: forall j int :: {results.Deliveries[j]} 0 <= j && j < len(results.Deliveries) ==> results.Deliveries[j] != nil
+//@     invariant total: fetched(0) == 0 && fetched(len(results.Deliveries)) == bytes
+//@     invariant prefix_sums: forall j int :: {fetched(j)} 0 <= j && j < len(results.Deliveries) ==> fetched(j + 1) == fetched(j) + len(results.Deliveries[j].Payload)
+//@     invariant within_budget: len(results.Deliveries) == 0 || bytes <= a.params.MaxBytes || (len(results.Deliveries) == 1 && !a.params.MaxBytesStrict)
+
 // The pull action's client entry point (waits, retries, runs its own transactions): used by handlers through this
 // summary only. The same body is verified for the single-transaction entry point Execute (below); the
 // multi-transaction wrapper (DoCtxTxRetry around each step) is not.
